@@ -152,6 +152,9 @@ type executor struct {
 	idxTerms []*Term
 	readLog  map[string]bool
 	heapLocals map[string]Value
+	// privateLocals: address-taken locals whose address only reaches loads, stores and closures that are
+	// deferred here (never a callee): a call cannot change them
+	privateLocals []*ssa.Alloc
 	curLoop  *loopInfo
 	freeVars map[string]Value
 	inSpec   bool // executing code on behalf of a specification (no obligations)
@@ -497,6 +500,31 @@ func (ex *executor) heapOf(st *state, cls *HeapClass) *Heap {
 }
 
 func (ex *executor) havocAll(st *state, why string) {
+	type kept struct {
+		a *Addr
+		v Value
+	}
+	var keep []kept
+	if !strings.HasPrefix(why, "go statement") {
+		for e := ex; e != nil; e = e.parent {
+			for _, al := range e.privateLocals {
+				pv, ok := e.env[envKey{e.curCtx, ssa.Value(al)}]
+				if !ok {
+					pv, ok = e.env[envKey{"", ssa.Value(al)}]
+				}
+				if !ok || len(pv.C) != 1 {
+					continue
+				}
+				a := ex.addrOf(pv)
+				keep = append(keep, kept{a, ex.load(st, a)})
+			}
+		}
+	}
+	defer func() {
+		for _, k := range keep {
+			ex.store(st, k.a, k.v)
+		}
+	}()
 	tag := ex.fresh("e")
 	na := FreshVar("alloc", IntSort)
 	ex.assume(st, ILe(st.alloc, na))
@@ -700,6 +728,46 @@ func (ex *executor) classifyCells() {
 					}
 				}
 				ex.cellName[name] = c
+			}
+		}
+	}
+	for _, b := range ex.fn.Blocks {
+		for _, in := range b.Instrs {
+			a, ok := in.(*ssa.Alloc)
+			if !ok || ex.cells[a] != nil || a.Comment == "" {
+				continue
+			}
+			private := true
+			if refs := a.Referrers(); refs != nil {
+				for _, r := range *refs {
+					switch u := r.(type) {
+					case *ssa.Store:
+						if u.Addr != ssa.Value(a) || u.Val == ssa.Value(a) {
+							private = false
+						}
+					case *ssa.UnOp:
+						if u.Op != token.MUL {
+							private = false
+						}
+					case *ssa.DebugRef:
+					case *ssa.MakeClosure:
+						// the closure itself must only be deferred in this function
+						if crefs := u.Referrers(); crefs != nil {
+							for _, cr := range *crefs {
+								switch cr.(type) {
+								case *ssa.Defer, *ssa.DebugRef:
+								default:
+									private = false
+								}
+							}
+						}
+					default:
+						private = false
+					}
+				}
+			}
+			if private {
+				ex.privateLocals = append(ex.privateLocals, a)
 			}
 		}
 	}
